@@ -233,7 +233,29 @@ func mkeq(a, b *T) *T {
 	} else if !(b.IsConst() || b.Op == "str" || b.Op == "nil") && a.Key() > b.Key() {
 		a, b = b, a
 	}
+	// x - c == k  and  x + c == k  name the test  x == k + c  /  x == k - c
+	// (exact in wrapping arithmetic: adding a constant is a bijection)
+	if b.IsConst() && isIntType(a.Ty) {
+		if a.Op == "sub" && len(a.A) == 2 && a.A[1].IsConst() {
+			return mkeq(a.A[0], tconst(b.C+a.A[1].C, b.Ty))
+		}
+		if a.Op == "add" && len(a.A) == 2 {
+			for i := 0; i < 2; i++ {
+				if a.A[i].IsConst() && b.C-a.A[i].C >= 0 {
+					return mkeq(a.A[1-i], tconst(b.C-a.A[i].C, b.Ty))
+				}
+			}
+		}
+	}
 	return &T{Op: "eq", A: []*T{a, b}}
+}
+
+func isIntType(t types.Type) bool {
+	if t == nil {
+		return false
+	}
+	b, ok := t.Underlying().(*types.Basic)
+	return ok && b.Info()&types.IsInteger != 0
 }
 
 func mknot(a *T) *T {
